@@ -48,11 +48,25 @@ type Failure struct {
 	PCSize   int
 	Approx   bool
 	PCScript string
+	VMOnly   bool
 }
 
 type knownClass struct {
 	Label string
 	Cond  *term.T
+	Only  []string // when non-empty: the class excuses only these assertion labels
+}
+
+func (k knownClass) applies(label string) bool {
+	if len(k.Only) == 0 {
+		return true
+	}
+	for _, l := range k.Only {
+		if l == label {
+			return true
+		}
+	}
+	return false
 }
 
 // State is the per-path execution state.
@@ -85,6 +99,9 @@ type State struct {
 	lockTab  map[string]int
 	bind     map[string]*term.T
 	noIntrinsic *ssa.Function
+	failedAsserts int
+	guards map[*Obj]guardInfo
+	vmOnlyFailure bool
 	fmtDepth int
 	expectBlocked bool
 }
@@ -410,8 +427,14 @@ func (st *State) newInput(kind string, w int) *term.T {
 func (st *State) failure(label string, cond []*term.T, detail string) {
 	// cond: extra conjuncts describing the failing situation (e.g. ¬c); nil for "pc itself".
 	st.w.assertQueries++
-	var notKnown []*term.T
+	var known []knownClass
 	for _, k := range st.known {
+		if k.applies(label) {
+			known = append(known, k)
+		}
+	}
+	var notKnown []*term.T
+	for _, k := range known {
 		notKnown = append(notKnown, term.MkNot(k.Cond))
 	}
 	mk := func(known string, m map[string]uint64) Failure {
@@ -419,16 +442,16 @@ func (st *State) failure(label string, cond []*term.T, detail string) {
 		copy(ins, st.inputs)
 		pre := make([]int32, len(st.record))
 		copy(pre, st.record)
-		f := Failure{Label: label, Known: known, Inputs: ins, Model: m, Detail: detail, Prefix: pre, PCSize: len(st.pc), Approx: st.approx}
+		f := Failure{Label: label, Known: known, Inputs: ins, Model: m, Detail: detail, Prefix: pre, PCSize: len(st.pc), Approx: st.approx, VMOnly: st.vmOnlyFailure}
 		f.PCScript = solver.Script(st.pc, cond)
 		return f
 	}
 	if st.concrete != nil {
 		// concrete mode: failure is definite
-		known := ""
-		for _, k := range st.known {
+		knownLabel := ""
+		for _, k := range known {
 			if k.Cond.IsTrue() {
-				known = k.Label
+				knownLabel = k.Label
 			}
 		}
 		m := map[string]uint64{}
@@ -437,7 +460,7 @@ func (st *State) failure(label string, cond []*term.T, detail string) {
 				m[in.Name] = st.concrete[i]
 			}
 		}
-		st.w.report(mk(known, m))
+		st.w.report(mk(knownLabel, m))
 		return
 	}
 	ex := append(append([]*term.T{}, cond...), notKnown...)
@@ -449,7 +472,7 @@ func (st *State) failure(label string, cond []*term.T, detail string) {
 	default:
 		st.w.inconclusive(fmt.Sprintf("solver %v on assertion %q", r, label))
 	}
-	for _, k := range st.known {
+	for _, k := range known {
 		if k.Cond.IsFalse() {
 			continue
 		}
@@ -501,7 +524,11 @@ func (st *State) Assert(c *term.T, label string) {
 	st.w.assertsChecked++
 	if c.IsFalse() {
 		st.failure(label, nil, "assertion is constant false")
-		st.end("assert-false", label)
+		// keep going (as the native harness does) so that later assertions on this path
+		// are still checked; the decision log remembers that this one was handled
+		st.record = append(st.record, dAssertDone)
+		st.failedAsserts++
+		return
 	}
 	if st.concrete != nil {
 		st.end("engine-error", "symbolic assert in concrete mode")
